@@ -8,6 +8,7 @@
 -/
 import GM.Model.Ids
 import GM.Proof.Ids
+import GM.Props.C15E2E
 
 namespace GM.Props.C15
 open GM GM.Ids
@@ -77,5 +78,22 @@ example : docIds [[32, 65, 32, 98, 95, 99, 45, 68, 32], [0x80, 97]] =
     some [[97, 45, 98, 45, 99, 45, 100], headingDefault] := by decide
 -- the hypothesis of `generate_fresh` is satisfiable and the probing branch is exercised
 example : generate [[97, 45, 49], [97]] [65] true = some ([97, 45, 50], [[97, 45, 50], [97, 45, 49], [97]]) := by decide
+
+/-! ### end to end (package `headingids`): the heading parsers call the generator, the renderer writes the id — inside the
+  composed model `GM.ConvertH.convertH true` of `goldmark.New(WithParserOptions(WithAutoHeadingID()), …).Convert`
+  (`type_of%` restates the exact statement; see GM.Props.C15E2E for the doc comments) -/
+theorem e2e_converth_off_is_core : type_of% @GM.Props.C15E2E.converth_off_is_core := @GM.Props.C15E2E.converth_off_is_core
+theorem e2e_converth_block_phase_projects : type_of% @GM.Props.C15E2E.converth_block_phase_projects := @GM.Props.C15E2E.converth_block_phase_projects
+theorem e2e_converth_never_loops : type_of% @GM.Props.C15E2E.converth_never_loops := @GM.Props.C15E2E.converth_never_loops
+theorem e2e_attributes_are_generated_ids : type_of% @GM.Props.C15E2E.attributes_are_generated_ids := @GM.Props.C15E2E.attributes_are_generated_ids
+theorem e2e_every_heading_has_id : type_of% @GM.Props.C15E2E.every_heading_has_id := @GM.Props.C15E2E.every_heading_has_id
+theorem e2e_heading_ids_nonempty : type_of% @GM.Props.C15E2E.heading_ids_nonempty := @GM.Props.C15E2E.heading_ids_nonempty
+theorem e2e_heading_ids_alphabet : type_of% @GM.Props.C15E2E.heading_ids_alphabet := @GM.Props.C15E2E.heading_ids_alphabet
+theorem e2e_heading_ids_distinct_by_node : type_of% @GM.Props.C15E2E.heading_ids_distinct_by_node := @GM.Props.C15E2E.heading_ids_distinct_by_node
+theorem e2e_heading_ids_pairwise_distinct : type_of% @GM.Props.C15E2E.heading_ids_pairwise_distinct := @GM.Props.C15E2E.heading_ids_pairwise_distinct
+theorem e2e_heading_ids_table_fed_in_close_order : type_of% @GM.Props.C15E2E.heading_ids_table_fed_in_close_order := @GM.Props.C15E2E.heading_ids_table_fed_in_close_order
+theorem e2e_heading_start_tag_rendered : type_of% @GM.Props.C15E2E.heading_start_tag_rendered := @GM.Props.C15E2E.heading_start_tag_rendered
+theorem e2e_heading_ids_rendered : type_of% @GM.Props.C15E2E.heading_ids_rendered := @GM.Props.C15E2E.heading_ids_rendered
+theorem e2e_heading_ids_document_local : type_of% @GM.Props.C15E2E.heading_ids_document_local := @GM.Props.C15E2E.heading_ids_document_local
 
 end GM.Props.C15
